@@ -8,29 +8,30 @@ LEVEL = "proof"
 DESIGN_REF = "DESIGN.md §9 C08, §12.C08"
 COQ_TARGETS = ["Properties/C08", "Pins/C08"]
 THEOREMS = [("PdfV.Properties.C08", n) for n in
-            ["C08_roundtrip_tokens", "C08_roundtrip", "C08_cur_point_sync", "C08_table", "C08_table_d0_d1_refuted",
-             "C08_table_yields", "C08_table_Tr_refuted", "C08_no_leak", "C08_no_leak_buffer", "C08_keywords_cover_iso", "C08_reader_matches_source",
+            ["C08_roundtrip_tokens", "C08_roundtrip", "C08_roundtrip_bytes", "C08_lex_reads_back", "C08_ser_defined", "C08_cur_point_sync", "C08_writer_current_point", "C08_table", "C08_table_d0_d1_refuted",
+             "C08_table_yields", "C08_table_Tr", "C08_no_leak", "C08_no_leak_buffer", "C08_keywords_cover_iso", "C08_reader_matches_source",
              "C08_writer_reader_agree", "C08_inline_abbreviations"]]
 ANCHORS = ["content.rs", "primitive.rs:serialize_name", "primitive.rs:PdfString", "types.rs:RenderingIntent", "object/mod.rs:ParseOptions"]
-MODES = ["ops_serialize", "ops_parse"]
+MODES = ["ops_serialize", "ops_parse", "ops_parse_bytes", "ops_roundtrip"]
 TRUSTED_BASE = ["coqc 8.16.1 kernel (vm_compute for table lemmas and witnesses; no native_compute)",
                 "gen/extract_content.py (regenerates operator / abbreviation / formatting tables of content.rs, primitive.rs, types.rs)",
                 "Extraction + ExtrOcamlBasic, ocamlfind ocamlopt 4.13.1, coq/driver/main.ml",
                 "harness pdfh (Rust; canonical Op codec in harness/src/modes/content.rs), tools/vplib",
                 "tools/oracle/optable.py: ISO 32000-1 Annex A table, reference tokenizer, exact binary32 rounding/printing"]
-ASSUMPTIONS = ["premise of C08_roundtrip: the lexer/parser (pdf/src/parser, modelled by the owner of C03/C04) reads back the operands "
-               "content.rs writes: lex (render ts) = Ok ts for token lists whose operands are regular names, i32 integers, reals with "
-               "a decimal point, strings (tested on every ops_roundtrip case)",
-               "Rust f32 Display prints the shortest round-trip decimal and str::parse::<f32> rounds to nearest "
+ASSUMPTIONS = ["Rust f32 Display prints the shortest round-trip decimal and str::parse::<f32> rounds to nearest "
                "(tools/oracle/optable.py reproduces both exactly; compared with the implementation on every case)",
-               "negative zero is judged by value (-0 = 0) in the correspondence and excluded from the syntactic theorems"]
+               "negative zero is judged by value (-0 = 0) in the spec comparison and excluded from the syntactic theorems",
+               "the data of a filtered inline image is compared after decoding the model's raw bytes with tools/oracle/codecs.py"]
 RULE = ("sequences of 0-40 operations over all 44 writable constructors with adjacency bias (every shorthand pair/triple and its "
         "near misses; all ordered pairs of constructors and all shorthand-relevant triples in thorough), operands: boundary and random "
         "finite reals, regular names, strings of any bytes, property lists; each sequence through ops_serialize (bytes judged by the "
         "reference content-stream reader and compared with the model), ops_roundtrip and ops_content (must return the sequence); "
         "every ISO Annex A keyword with generated operands, with one operand too many and one too few, followed by a probe operator "
         "(ops_parse: judged by the ISO table, compared with the model on the token list); random ISO operator streams with the "
-        "standard's current-point rules; inline images; non-trivial = at least one operation with an operand; distinct by case line")
+        "standard's current-point rules; inline images (plain, filtered AHx/A85/RL/Fl incl. chains and Indexed colour spaces, malformed "
+        "dictionaries, damaged ID / EI, cut streams); every ops_parse case again as ops_parse_bytes (the model reads the bytes: token "
+        "loop on the shared lexer / parser models); byte-level damage to well-formed streams (never a panic, same answer as the "
+        "model); ops_roundtrip compared with the model (ser_ops then parse_bytes); non-trivial = at least one operation with an operand; distinct by case line")
 CASE_TIMEOUT = 10.0
 
 WRITABLE = [c for c in T.SHAPES if c != "InlineImage"]
@@ -159,7 +160,7 @@ def gen_op(rng, c, wild=False):
         elif kind == "w":
             f.append(rng.choice(["NonZero", "EvenOdd"]))
         elif kind == "e":
-            f.append(rng.randrange(6 if c == "TextRenderMode" else 3))
+            f.append(rng.randrange(8 if c == "TextRenderMode" else 3))
         elif kind == "L":
             f.append(tuple(gen_f(rng) for _ in range(rng.choice([0, 1, 2, 4]))))
         elif kind == "T":
@@ -284,10 +285,10 @@ def same_ops_check(ops):
         if r[0] != "OK":
             return "failed: %s %s" % (r[0], r[1])
         try:
-            got = T.dec_ops(r[1])
+            got = canon_images(T.dec_ops(r[1]))
         except Exception as e:
             return "undecodable operation list: %r" % (e,)
-        if not T.ops_equal(got, ops):
+        if not T.ops_equal(got, canon_images(ops)):
             return "different operations come back (%d instead of %d; first difference at %s)" % (
                 len(got), len(ops), next((i for i, (a, b) in enumerate(zip(got, ops)) if not T.val_eq(a, b)), min(len(got), len(ops))))
         return None
@@ -310,7 +311,7 @@ def seq_cases(ops, tags=(), wild=False):
     matoms = T.enc_ops(ops, model=True)
     tags = list(tags)
     out = [remember(Case("ops_serialize", atoms, check=serialize_check(ops), mfields=matoms, tags=["serialize"] + tags), ops=ops),
-           remember(Case("ops_roundtrip", atoms, check=same_ops_check(ops), model=False, tags=["roundtrip"] + tags), ops=ops)]
+           remember(Case("ops_roundtrip", atoms, check=same_ops_check(ops), model=not wild, mfields=matoms, tags=["roundtrip"] + tags), ops=ops)]
     if not wild:
         out.append(remember(Case("ops_content", atoms, check=same_ops_check(ops), model=False, tags=["content"] + tags), ops=ops))
     return out
@@ -336,7 +337,7 @@ def gen_args(rng, kw):
             args.append([gen_string(rng) if rng.random() < 0.5 else (gen_f(rng) if rng.random() < 0.5 else rng.randint(-99, 99))
                          for _ in range(rng.choice([0, 1, 2, 4]))])
         elif k == "I":
-            args.append(rng.randrange({"Tr": 6}.get(kw, 3)))
+            args.append(rng.randrange({"Tr": 8}.get(kw, 3)))
         elif k == "O":
             args.append(gen_props(rng))
     return args
@@ -422,7 +423,7 @@ def inline_cases(rng, n):
         if rng.random() < 0.5:
             keys[0], keys[1] = (("Width", keys[0][1]) if keys[0][0] == "W" else keys[0]), keys[1]
         data = bytes(rng.choice(b"abcdefgh\x00\x01\xff \n0123") for _ in range(rng.choice([1, 2, 7, 30])))
-        lf = data.endswith(b"\n")       # C08-h: Lexer::seek_substr misses "\nEI" after a data byte LF
+        lf = data.endswith(b"\n")       # C08-h (fixed): Lexer::seek_substr missed "\nEI" after a data byte LF
         toks = [Word(b"BI")]
         for k, v in keys:
             toks += [Nm(k), v]
@@ -432,14 +433,157 @@ def inline_cases(rng, n):
         exp_dict = sorted(T.expand_image_dict([(k.encode(), v) for k, v in keys]))
         exp = ([("Save",)] if pre else []) + [("InlineImage", (Dict(exp_dict), data))] + ([("Restore",)] if post else [])
         c = parse_case(rng, pre + toks + post, exp, ["inline"] + (["inline-lf"] if lf else []), raw_sep=b" ")
-        if lf:
-            c.model = False
         yield c
+
+
+def bytes_twin(c):
+    """the same content stream, with the model reading the BYTES (token loop on the shared lexer / parser models)"""
+    info = INFO.get(c.key(), {})
+    t = Case("ops_parse_bytes", c.fields, check=c.check, tags=sorted(c.tags | {"bytes"}))
+    return remember(t, **info)
+
+
+def with_twins(cases):
+    for c in cases:
+        yield c
+        if c.mode == "ops_parse":
+            yield bytes_twin(c)
+
+
+def mutate(rng, data):
+    data = bytearray(data)
+    for _ in range(rng.choice([1, 1, 2, 3])):
+        k = rng.randrange(6)
+        i = rng.randrange(len(data) + 1)
+        if k == 0 and data:
+            del data[min(i, len(data) - 1)]
+        elif k == 1:
+            data[i:i] = bytes([rng.choice(b"()<>[]{}/%#\\ \n\r\t\x00+-.0123456789abEIDBR'\"\x80\xff\xc3\xa9")])
+        elif k == 2 and data:
+            data[min(i, len(data) - 1)] = rng.randrange(256)
+        elif k == 3:
+            del data[i:]
+        elif k == 4:
+            data[i:i] = rng.choice([b"<<", b">>", b"[", b"]", b"(", b")", b" BI ", b" ID ", b"\nEI", b" EI ", b" 1 0 R ", b"%c\n", b"/A#", b"/A#4",
+                                    b"stream", b" true ", b" null ", b"+", b"-", b".", b"1.", b".5", b"+.5", b"99999999999", b"<4", b"<4g>",
+                                    b"(a\\", b"\\053", b" BX ", b" EX "])
+        else:
+            j = rng.randrange(len(data) + 1)
+            data[min(i, j):max(i, j)] = b""
+    return bytes(data)
+
+
+def malformed_cases(rng, n):
+    """byte-level damage to well-formed streams: the implementation must not panic and must do what the model does"""
+    kws = [k for k, s in T.ISO_OPS.items() if s is not None and k not in ("d0", "d1")]
+    for _ in range(n):
+        toks = []
+        for _ in range(rng.randint(1, 6)):
+            kw = rng.choice(kws)
+            toks += gen_args(rng, kw) + [Word(kw.encode())]
+        data = mutate(rng, T.spell_tokens(toks, rng.choice(SEPS), rng.choice([b"\n", b" ", b"\r\n"])))
+        if has_ref(data):
+            continue
+        yield Case("ops_parse_bytes", [data], tags=["malformed", "bytes"], kind="malformed")
+
+
+def has_ref(data):
+    """`n g R` is read as a Primitive::Reference, an operand kind outside the content model"""
+    import re
+    return re.search(rb"[0-9][\x00\t\n\x0c\r ]+[+-]?[0-9]+[\x00\t\n\x0c\r ]+R", data) is not None or b"R" in data and b"%" in data
+
+
+def spell_image(rng, keys, raw, pre=b"", post=b""):
+    out = bytearray(pre + b"BI ")
+    for k, v in keys:
+        out += T.spell_prim(Nm(k.encode() if isinstance(k, str) else k)) + b" " + T.spell_prim(v) + b" "
+    out += b"ID" + rng.choice([b" ", b"\n"]) + raw + b"\nEI" + rng.choice([b"\n", b" "]) + post
+    return bytes(out)
+
+
+def filtered_inline_cases(rng, n):
+    """inline images with /Filter (abbreviated or not, single or array): the data comes back decoded"""
+    from oracle import codecs as C
+    enc = {"AHx": lambda d: C.hex_encode(d), "A85": lambda d: C.a85_encode(d), "RL": lambda d: C.rle_encode(d), "Fl": lambda d: C.zlib_encode(d)}
+    for _ in range(n):
+        data = bytes(rng.randrange(256) for _ in range(rng.choice([1, 3, 8, 40])))
+        chain = [rng.choice(list(enc))] if rng.random() < 0.7 else [rng.choice(["AHx", "A85"]), rng.choice(list(enc))]
+        raw = data
+        for f in reversed(chain):
+            raw = bytes(enc[f](raw))
+        if b"\nEI" in raw or raw[-1:] in (b"\n",):
+            continue
+        names = [Nm((f if rng.random() < 0.6 else T.INLINE_FILTERS[f]).encode()) for f in chain]
+        fval = names[0] if len(names) == 1 and rng.random() < 0.6 else names
+        keys = [("W", rng.randint(1, 64)), ("H", rng.randint(1, 64)), (rng.choice(["F", "Filter"]), fval)]
+        if rng.random() < 0.5:
+            keys.append(("BPC", 8))
+        if rng.random() < 0.4:
+            keys.append(("CS", rng.choice([Nm(b"G"), Nm(b"RGB"), [Nm(b"I"), Nm(b"RGB"), 1, b"\x00\x00\x00\xff\xff\xff"],
+                                           [Nm(b"Indexed"), Nm(b"DeviceGray"), 0, b"\x07"]])))
+        if rng.random() < 0.2:
+            keys.append(("Intent", Nm(rng.choice(T.INTENTS).encode())))
+        rng.shuffle(keys)
+        stream = spell_image(rng, keys, raw, b"q\n", b"Q\n")
+        exp_dict = T.expand_image_dict([(k.encode(), v) for k, v in keys])
+        exp = [("Save",), ("InlineImage", (Dict(exp_dict), data)), ("Restore",)]
+        yield remember(Case("ops_parse_bytes", [stream], check=same_ops_check(exp), tags=["inline", "inline-filtered", "bytes"]), toks=[], expected=exp)
+
+
+BAD_VALUES = [None, True, Nm(b"X"), b"s", 1.5, -1, 300, [1, 2], [], Dict([])]
+
+
+def malformed_inline_cases(rng, n):
+    """inline images whose dictionary is not what ImageDict needs, or that are cut short: never a panic, and the model
+    decides the same way whether an image comes out"""
+    for _ in range(n):
+        keys = [("W", rng.randint(1, 9)), ("H", rng.randint(1, 9)), ("BPC", 8), ("CS", Nm(b"G"))]
+        k = rng.randrange(12)
+        bad = rng.choice(BAD_VALUES)
+        bad = F.of(bad) if isinstance(bad, float) else bad
+        if k == 0:
+            keys = [x for x in keys if x[0] != rng.choice(["W", "H"])]
+        elif k == 1:
+            keys[rng.randrange(2)] = (keys[rng.randrange(2)][0], bad)
+        elif k == 2:
+            keys.append((rng.choice(["F", "Filter"]), rng.choice([Nm(b"Nope"), [Nm(b"AHx"), Nm(b"Nope")], 3, [1], b"AHx", [[Nm(b"AHx")]]])))
+        elif k == 3:
+            keys[3] = ("CS", rng.choice([bad, [Nm(b"I")], [Nm(b"I"), Nm(b"G")], [Nm(b"I"), Nm(b"G"), 256, b"x"], [Nm(b"I"), Nm(b"G"), 1, 7],
+                                         [1, 2], [Nm(b"I"), [Nm(b"I"), [Nm(b"I"), [Nm(b"I"), [Nm(b"I"), [Nm(b"I"), Nm(b"G"), 0, b"a"], 0, b"a"], 0, b"a"], 0, b"a"], 0, b"a"], 0, b"a"]]))
+        elif k == 4:
+            keys.append((rng.choice(["IM", "I", "ImageMask", "Interpolate"]), bad))
+        elif k == 5:
+            keys.append((rng.choice(["D", "Decode"]), rng.choice([bad, [0, 1], [F.of(0.5), 1], [Nm(b"a")], 1])))
+        elif k == 6:
+            keys.append((rng.choice(["DP", "DecodeParms"]), rng.choice([bad, Dict([]), Dict([(b"K", 1)])])))
+        elif k == 7:
+            keys.append(("Intent", rng.choice([bad, Nm(b"Perceptual"), Nm(b"Bogus")])))
+        elif k == 8:
+            keys[2] = ("BPC", bad)
+        rng.shuffle(keys)
+        data = bytes(rng.choice(b"abc\x00\xff 012") for _ in range(rng.choice([0, 1, 4])))
+        stream = spell_image(rng, keys, data, rng.choice([b"", b"q\n"]), rng.choice([b"", b"Q\n", b"1 2 m\n"]))
+        if k == 9:
+            stream = stream[:rng.randrange(len(stream))]
+        elif k == 10:
+            stream = stream.replace(b"\nEI", rng.choice([b" EI", b"\nE I", b"EI", b"\n\nEI", b"\nEIx"]), 1)
+        elif k == 11:
+            stream = stream.replace(b" ID", rng.choice([b" IDx", b"", b" 5 ID", b" /K ID", b" ID ID"]), 1)
+        if has_ref(stream):
+            continue
+        yield Case("ops_parse_bytes", [stream], tags=["inline", "inline-malformed", "bytes"], kind="malformed")
 
 
 # ------------------------------------------------------------------------------------------------
 
 def generate(rng, tier):
+    yield from with_twins(generate_base(rng, tier))
+    yield from malformed_cases(rng, 600 if tier == "quick" else 8000)
+    yield from filtered_inline_cases(rng, 150 if tier == "quick" else 2500)
+    yield from malformed_inline_cases(rng, 400 if tier == "quick" else 6000)
+
+
+def generate_base(rng, tier):
     quick = tier == "quick"
     yield from seq_cases([], ["empty"])
     # every constructor alone, several operand draws
@@ -475,7 +619,7 @@ def generate(rng, tier):
 
 
 def nontrivial(c):
-    return len(c.fields) >= 2 or (c.mode == "ops_parse" and len(c.fields[0]) >= 4)
+    return len(c.fields) >= 2 or (c.mode in ("ops_parse", "ops_parse_bytes") and len(c.fields[0]) >= 4)
 
 
 def same(a, b):
@@ -488,13 +632,39 @@ def same(a, b):
         if a is not None and a[0] == "OK" and any(x == b"InlineImage" for x in a[1]):
             # the harness reports an inline image's dictionary sorted by key, filters as an array of full names
             try:
-                return T.ops_equal(canon_images(T.dec_ops(a[1])), canon_images(T.dec_ops(b[1])))
+                return T.ops_equal(canon_images(T.dec_ops(a[1])), canon_images(T.dec_ops(b[1]), decode=True))
             except Exception:
                 return False
     return same_result(a, b)
 
 
-def canon_images(ops):
+def apply_filters(names, data):
+    """the data of a filtered inline image as Stream::data returns it (spec-side decoders); b"?" when it cannot be decoded"""
+    from oracle import codecs as C
+    try:
+        for n in names:
+            if n == "ASCIIHexDecode":
+                data = C.hex_decode(data)
+            elif n == "ASCII85Decode":
+                data = C.a85_decode(data)
+            elif n == "RunLengthDecode":
+                data = C.rle_decode(data)
+            elif n == "FlateDecode":
+                data = C.zlib_decode(data)
+            elif n == "LZWDecode":
+                data = C.lzw_decode(data)
+            else:
+                return b"?"
+            if data is None:
+                return b"?"
+        return bytes(data)
+    except Exception:
+        return b"?"
+
+
+def canon_images(ops, decode=False):
+    """inline images: dictionary sorted by key, /Filter as a list of full names; decode=True: the model keeps the
+    raw data, the implementation reports what Stream::data returns"""
     out = []
     for o in ops:
         if o[0] == "InlineImage":
@@ -503,7 +673,9 @@ def canon_images(ops):
             for k, v in d.items:
                 if k == b"Filter":
                     v = v if isinstance(v, list) else [v]
-                    v = [Nm(T.INLINE_FILTERS.get(x.s.decode("latin1"), x.s.decode("latin1"))) for x in v]
+                    v = [Nm(T.INLINE_FILTERS.get(x.s.decode("latin1"), x.s.decode("latin1")).encode()) if isinstance(x, Nm) else x for x in v]
+                    if decode:
+                        data = apply_filters([x.s.decode("latin1") for x in v if isinstance(x, Nm)], data)
                 items.append((k, v))
             o = ("InlineImage", (Dict(sorted(items)), data))
         out.append(o)
@@ -519,21 +691,15 @@ def always(case, r):
 def classify(case, impl, model):
     if "d0d1" in case.tags:
         return "C08-d"
-    if "tr67" in case.tags:
-        return "C08-f"
     if "wild" in case.tags:
         return "C08-g"
-    if "inline-lf" in case.tags:
-        return "C08-h"
     info = INFO.get(case.key())
     if info is None or impl[0] != "OK":
         return None
-    # C08-e: the library's current point ignores h / re / path-painting operators
+    # C08-e: the reader's current point ignores h / re / path-painting operators
     try:
-        if case.mode == "ops_serialize":
-            if T.ops_equal(T.spec_parse(impl[1][0] if impl[1] else b"", stale=True), info["ops"]):
-                return "C08-e"
-        elif case.mode == "ops_parse" and "toks" in info:
+        # (the writer's half is fixed, C08-i: a `v` written against a stale point is a violation)
+        if case.mode in ("ops_parse", "ops_parse_bytes") and "toks" in info:
             data = case.fields[0]
             if T.ops_equal(T.spec_parse(data, stale=True), T.dec_ops(impl[1])):
                 return "C08-e"
@@ -553,14 +719,14 @@ def witness_case(f, c):
         c.check = serialize_check(ops)
         c.mfields = T.enc_ops(ops, model=True)
         remember(c, ops=ops)
-    elif c.mode == "ops_parse":
+    elif c.mode in ("ops_parse", "ops_parse_bytes"):
         data = c.fields[0]
         try:
             exp = T.spec_parse(data)
         except Exception:
             exp = None
         c.check = same_ops_check(exp) if exp is not None else (lambda r: "the witness is not a valid content stream")
-        c.model = c.mfields is not None and f["id"] != "C08-h"
+        c.model = c.mfields is not None or c.mode == "ops_parse_bytes"
         remember(c, toks=[], expected=exp)
     return c
 
